@@ -485,6 +485,28 @@ def checkBufferSharing (m : Model) (res : List (String × CReq)) : PyM Unit := d
                   | none => false) then throw .runtimeError
         | _ => pure ()
 
+/-- repair D35 (second half of the unread-constant pass of `_check_buffer_sharing`): a constant that no operator reads may itself
+    be requested to be rewritten (a graph output under a rule covering OUTPUT); nobody compared that request with the other tensors
+    over the same buffer, so it is refused whenever the buffer has another referent -/
+def checkUnreadOwn (m : Model) (res : List (String × CReq)) : PyM Unit := do
+  let b2t := bufferToTensors m
+  let operands := b2t.flatMap (·.2)
+  let allTensors := m.subgraphs.flatMap (·.tensors)
+  for sg in m.subgraphs do
+    for t in sg.tensors do
+      if operands.contains t.name then pure ()
+      else
+        match m.buffers[t.buffer]? with
+        | some (some _) =>
+          match Py.dictGet? res t.name with
+          | none => pure ()
+          | some own =>
+            if decide (1 < allTensors.countP (fun u => u.buffer == t.buffer)) &&
+                (own.consumers.getD []).any (fun c => match c.xfs.head? with
+                  | some x => x == .quantTensor || x == .addDequant
+                  | none => false) then throw .runtimeError
+        | _ => pure ()
+
 /-- `ParamsGenerator.generate_quantization_parameters`; `qsvs = none` models `None`.
     Returns the requests in dict order. (The caller's statistics are never touched: repair D5.) -/
 def generate (rx : String → String → Bool) (env : Env) (st : Recipe.State) (qsvs : Option Qsvs) : PyM (List CReq) := do
@@ -529,6 +551,7 @@ def generate (rx : String → String → Bool) (env : Env) (st : Recipe.State) (
           qs := qs'
           res ← updateResults res r
   checkBufferSharing env.model res
+  checkUnreadOwn env.model res
   pure (res.map (·.2))
 
 end Mat
